@@ -306,9 +306,17 @@ fn load_impl(
 ///
 /// If reading or parsing of the file fails, the `A2lError` will give details about the problem.
 pub fn load_fragment(a2ldata: &str, a2ml_spec: Option<String>) -> Result<Module, A2lError> {
+    load_fragment_impl(&Filename::from("(fragment)"), a2ldata, a2ml_spec)
+}
+
+fn load_fragment_impl(
+    filename: &Filename,
+    a2ldata: &str,
+    a2ml_spec: Option<String>,
+) -> Result<Module, A2lError> {
     let fixed_a2ldata = format!(r#"fragment "" {a2ldata} /end MODULE"#);
     // tokenize the input data
-    let tokenresult = tokenizer::tokenize(&Filename::from("(fragment)"), 0, &fixed_a2ldata)
+    let tokenresult = tokenizer::tokenize(filename, 0, &fixed_a2ldata)
         .map_err(|tokenizer_error| A2lError::TokenizerError { tokenizer_error })?;
     let firstline = tokenresult.tokens.first().map_or(1, |tok| tok.line);
     let context = ParseContext {
@@ -346,7 +354,8 @@ pub fn load_fragment_file<P: AsRef<Path>>(
 ) -> Result<Module, A2lError> {
     let pathref = path.as_ref();
     let filedata = loader::load(pathref)?;
-    load_fragment(&filedata, a2ml_spec)
+    // the name of the file is needed to resolve /include directives relative to the fragment file
+    load_fragment_impl(&Filename::from(pathref), &filedata, a2ml_spec)
 }
 
 impl A2lFile {
